@@ -78,7 +78,8 @@ fn label_id(l: &[u8]) -> u8 {
             return i;
         }
     }
-    99
+    // any other label (NSEC3 hashed owner names): a stable id in 100..250
+    100 + (fnv(&s) % 150) as u8
 }
 
 #[derive(Clone, Debug, PartialEq, Eq, PartialOrd, Ord, Hash)]
@@ -120,7 +121,11 @@ fn name_str(n: &Nm) -> String {
     }
     let mut s = String::new();
     for l in n {
-        s.push_str(label_str(*l));
+        if *l >= 100 {
+            s.push_str(&format!("h{l}"));
+        } else {
+            s.push_str(label_str(*l));
+        }
         s.push('.');
     }
     s
@@ -601,6 +606,12 @@ const K_CNAME_NEG: u8 = 5;
 const K_LONG: u8 = 6;
 const K_ANYWILD: u8 = 7;
 const K_SOAREF: u8 = 8;
+/// signed zones only (harness-level class, not part of the Gallina model): QTYPE SOA answered through a
+/// wildcard-synthesised record gets the apex NS set instead of the denial proof
+const K_SOA_WILD_PROOF: u8 = 9;
+/// NSEC-signed zone whose only owner name is the apex: closest_nsec finds no covering NSEC (the chain's only
+/// record points at itself)
+const K_SINGLE_NSEC: u8 = 10;
 
 fn carries(z: &[RrSet], n: &[u8], t: u16) -> bool {
     rrset(z, n, t).is_some() || rrset(z, n, T_CNAME).is_some()
@@ -697,6 +708,8 @@ fn known_id(k: u8) -> Option<&'static str> {
         K_LONG => Some("C10-cname-depth-8"),
         K_ANYWILD => Some("C10-any-wildcard-cname"),
         K_SOAREF => Some("C10-soa-query-below-cut"),
+        K_SOA_WILD_PROOF => Some("C10-dnssec-soa-query-wildcard-no-proof"),
+        K_SINGLE_NSEC => Some("C10-dnssec-single-name-zone-no-nsec"),
         _ => None,
     }
 }
@@ -1128,6 +1141,7 @@ fn case(rt: &tokio::runtime::Runtime, seed: u64, index: u64, verbose: bool) -> C
     let mut lines = vec![];
     for (i, q) in qs.iter().enumerate() {
         let bytes = wire_query(0x1000 + i as u16, q);
+        let mut signed_class = 0u8;
         let (obs, verdict) = match drive(rt, &b.ctx, &bytes) {
             Ok(o) => {
                 let e = rfc_answer(&b.zone, &g.origin, &q.name, q.ty);
@@ -1137,7 +1151,13 @@ fn case(rt: &tokio::runtime::Runtime, seed: u64, index: u64, verbose: bool) -> C
                     if known_class(&b.zone, &g.origin, &q.name, q.ty) != 0 {
                         None
                     } else {
-                        judge(&b.zone, &g.origin, &e, &strip_dnssec(&o)).or_else(|| dnssec_judge(&b.zone, &g.origin, &e, &o))
+                        let v = judge(&b.zone, &g.origin, &e, &strip_dnssec(&o)).or_else(|| dnssec_judge(&b.zone, &g.origin, &e, &o));
+                        if q.ty == T_SOA && e.as_ref().is_some_and(|e| e.wild) {
+                            signed_class = K_SOA_WILD_PROOF;
+                        } else if signed == Some(false) && b.zone.iter().all(|s| s.name == g.origin) && e.as_ref().is_some_and(|e| e.auth == Auth::Soa) {
+                            signed_class = K_SINGLE_NSEC;
+                        }
+                        v
                     }
                 } else {
                     judge(&b.zone, &g.origin, &e, &o)
@@ -1146,7 +1166,13 @@ fn case(rt: &tokio::runtime::Runtime, seed: u64, index: u64, verbose: bool) -> C
             }
             Err(e) => (Obs { rcode: 99, aa: false, ans: vec![], auth: vec![], add: vec![] }, Some(format!("no single decodable reply: {e}"))),
         };
-        let k = if zone_ok { known_class(&b.zone, &g.origin, &q.name, q.ty) } else { 0 };
+        let k = if signed_class != 0 {
+            signed_class
+        } else if zone_ok {
+            known_class(&b.zone, &g.origin, &q.name, q.ty)
+        } else {
+            0
+        };
         let qd = format!("{} {}{}{}", name_str(&q.name), ty_str(q.ty), if q.dnssec_ok { " +do" } else { "" }, if q.upper { " +upper" } else { "" });
         if zone_ok && signed.is_none() {
             CLASS_STATS.with(|c| {
